@@ -24,6 +24,7 @@ CONSTANTS Nodes, Virt, MaxUpd, MaxFail, FixMerge, ArmAt, Upfront, SplitStart,
 Real == Nodes \ Virt
 CapAll  == [i \in Nodes |-> MaxUpd]
 CapAsym == [i \in Nodes |-> IF i = 1 THEN MaxUpd ELSE 1]
+CapTwo  == [i \in Nodes |-> IF i <= 2 THEN MaxUpd ELSE 0]
 
 VARIABLES value,   \* [Nodes -> Vec]  working state (crdt.value)
           old,     \* [Nodes -> Vec]  crdt.oldValue (Zero when hasOld is FALSE)
